@@ -874,6 +874,65 @@ func runC05Overflow(c *harness.Case, hooked bool) {
 		}
 	}
 	rg.judge(w, all, sent, [2]uint64{}, false, map[string]interface{}{"hooked": hooked, "slow_subscriber_drops": atomic.LoadInt32(&slow)})
+	if closed && c.R.Verdict != "violated" {
+		// epilogue: the dropped consumer has read the end of its stream and now gives up its request too. The node must
+		// go on accepting watches and feeding them: a new watch right behind the last write, three more writes.
+		cancel()
+		time.Sleep(2 * time.Millisecond)
+		type wres struct {
+			ch  <-chan []*proto.Event
+			err error
+		}
+		rc := make(chan wres, 1)
+		ctx2, cancel2 := context.WithCancel(context.Background())
+		defer cancel2()
+		from := lastRev + 1
+		go func() {
+			ch2, err := rg.n.B.Watch(ctx2, P, from)
+			rc <- wres{ch2, err}
+		}()
+		var res wres
+		select {
+		case res = <-rc:
+		case <-time.After(45 * time.Second):
+			c.Violatef("C05 watch-registration-never-returns after=slow-consumer-drop", map[string]interface{}{"hooked": hooked, "drops": atomic.LoadInt32(&slow)},
+				"after a slow consumer was dropped and had ended its request, a new Watch(%q, %d) did not return within 45 s on an idle node", P, from)
+			return
+		}
+		if res.err != nil {
+			c.Inconclusive("watch after the drop refused: " + res.err.Error())
+			return
+		}
+		var wantRevs []uint64
+		for j := 0; j < 3; j++ {
+			if !writeOne(20000 + j) {
+				return
+			}
+			wantRevs = append(wantRevs, lastRev)
+		}
+		var gotRevs []uint64
+		tm := time.After(45 * time.Second)
+	after:
+		for len(gotRevs) < len(wantRevs) {
+			select {
+			case b, ok := <-res.ch:
+				if !ok {
+					break after
+				}
+				for _, e := range b {
+					gotRevs = append(gotRevs, e.Revision)
+				}
+			case <-tm:
+				break after
+			}
+		}
+		if fmt.Sprint(gotRevs) != fmt.Sprint(wantRevs) {
+			c.Violatef("C05 events-not-delivered after=slow-consumer-drop", map[string]interface{}{"hooked": hooked, "drops": atomic.LoadInt32(&slow), "want": wantRevs, "got": gotRevs},
+				"after a slow consumer was dropped and had ended its request, a watch from %d received revisions %v for the successful writes %v", from, gotRevs, wantRevs)
+			return
+		}
+		c.Stat("watches_fed_after_a_slow_consumer_drop", 1)
+	}
 	c.Stat("overflow_drops_seen", int64(atomic.LoadInt32(&slow)))
 	c.Stat("writes", int64(len(all)))
 	c.Stat("events_received_by_overflowing_consumer", int64(len(got)))
